@@ -6,7 +6,7 @@ for d in sorted(glob.glob('/verif/seeded/*')):
     if not os.path.exists(mp):
         continue
     m = json.load(open(mp))
-    name = os.path.basename(d); pid = name.split('-')[0]; rnd = {'rt': 1, 'r2t': 2, 'r3t': 3, 'r4t': 4, 'r5t': 5}[name.split('-')[1].rstrip('0123456789')]
+    name = os.path.basename(d); pid = name.split('-')[0]; rnd = {'rt': 1, 'r2t': 2, 'r3t': 3, 'r4t': 4, 'r5t': 5, 'r6t': 6}[name.split('-')[1].rstrip('0123456789')]
     lr = m.get('last_run')
     if str(m.get('current_result', '')).startswith('obsolete') or (isinstance(lr, str) and 'no longer applies' in lr):
         lr = 'obsolete (the lines it edits were rewritten by a later repair that removes the defect it re-introduced)'
@@ -23,6 +23,6 @@ for pid, l in rows.items():
     mis = [f"{n}: {_r[2][:60]}" for n, *_r in l if not _r[2].startswith('caught') and not _r[3]]
     fm = [n for n, *_r in l if 'miss' in _r[1].lower()]
     tot.update(cex=len(cex), nof=len(nof), oth=len(oth), mis=len(mis), all=len(l))
-    rounds = '+'.join(str(sum(1 for x in l if x[1] == r)) for r in (1, 2, 3, 4, 5) if any(x[1] == r for x in l))
+    rounds = '+'.join(str(sum(1 for x in l if x[1] == r)) for r in (1, 2, 3, 4, 5, 6) if any(x[1] == r for x in l))
     print(f"| {pid} | {len(l)} ({rounds}) | {len(cex)} / {len(nof)} | {', '.join(oth) or '—'} | {', '.join(mis) or '—'} | {len(fm)} |")
 print(); print(dict(tot))
